@@ -21,26 +21,36 @@ Theorem allowed_refines_spec :
 Proof. exact refines_spec. Qed.
 
 (* the switches generated from eventversion.go agree with the specification's version matrix for
-   every version but org.matrix.msc3787, whose restricted-join switch is not set (F10) *)
+   every version of the table (F10, the missing restricted-join switch of org.matrix.msc3787, is
+   repaired) *)
 Theorem spec_table_agrees :
   forall ver f sv,
-    In ver all_versions -> ver <> msc3787 ->
+    In ver all_versions ->
     flags_of_version ver = Some f -> spec_rules_of ver = Some sv -> rules_agree f sv.
 Proof. exact version_rules_agree. Qed.
+
+(* stronger: version by version, every switch authorisation reads -- knocking, restricted joins,
+   the power-level checker, the level parser, the create checker, privileged creators, pseudo IDs,
+   the event format -- is the one the hand-written specification matrix prescribes. A table entry
+   rewired in eventversion.go breaks this proof, and the specification oracles, which read events
+   with spec_flags_of only, then disagree with the implementation on concrete inputs. *)
+Theorem generated_switches_match_spec :
+  forall ver, In ver all_versions -> flags_of_version ver = spec_flags_of ver.
+Proof. exact version_flags_eq_spec. Qed.
 
 (* on JSON events, through abs: Allowed (model) accepts iff the rules accept *)
 Theorem allowed_model_refines_spec :
   forall sig_ok ver f sv e auths,
-    In ver all_versions -> ver <> msc3787 ->
+    In ver all_versions ->
     flags_of_version ver = Some f -> spec_rules_of ver = Some sv ->
     let a := abs sig_ok f e auths in
     auth_wf sv a ->
     no_F18 a -> no_tpi_on_non_invite a -> no_F22 sv a -> no_F26 a -> no_broken_power_levels a ->
     (decide_spec sv a = true <-> allowed_model sig_ok ver e auths = Some VOk).
 Proof.
-  intros sig_ok ver f sv e auths Hin Hne Hf Hs a Hwf H18 Ht H22 H26 Hnb.
+  intros sig_ok ver f sv e auths Hin Hf Hs a Hwf H18 Ht H22 H26 Hnb.
   unfold allowed_model. rewrite Hf. fold a.
-  rewrite (refines_spec a sv (version_rules_agree ver f sv Hin Hne Hf Hs) Hwf H18 Ht H22 H26 Hnb).
+  rewrite (refines_spec a sv (version_rules_agree ver f sv Hin Hf Hs) Hwf H18 Ht H22 H26 Hnb).
   destruct (decide_model a); simpl; split; congruence.
 Qed.
 
@@ -226,6 +236,7 @@ Qed.
 
 Print Assumptions allowed_refines_spec.
 Print Assumptions spec_table_agrees.
+Print Assumptions generated_switches_match_spec.
 Print Assumptions allowed_model_refines_spec.
 Print Assumptions create_rules.
 Print Assumptions membership_rules.
